@@ -24,6 +24,8 @@
 #include "torrent/object.h"
 #include "torrent/object_stream.h"
 #include "torrent/torrent.h"
+#include "torrent/runtime/network_config.h"
+#include "torrent/runtime/runtime.h"
 #include "torrent/net/socket_address.h"
 #include "torrent/peer/peer_list.h"
 #include "torrent/system/thread.h"
@@ -253,6 +255,54 @@ static std::string run_http2(int event, const std::vector<std::string>& bodies) 
   return out;
 }
 
+// several announces on ONE TrackerHttp object (hostname tracker), the address-family configuration may change in
+// between:  H3 <event> ( A <b|4|6|n> <body hex|~> <body hex|~> )*     b = both families, 4 / 6 = the other one blocked,
+// n = both blocked.  Bodies are fed to whatever request is open (see run_http2).
+static std::string run_http3(const std::vector<std::string>& tk) {
+  int event = std::stoi(tk.at(1));
+  torrent::TrackerInfo info;
+  info.info_hash = *torrent::HashString::cast_from(g_info_hash);
+  info.url = "http://tracker.test:1/announce";
+  info.key = 7;
+  auto t = std::make_unique<torrent::TrackerHttp>(info);
+  Events evs;
+  evs.hook(t.get());
+  auto cfg = torrent::runtime::network_config();
+  std::string out;
+  try {
+    for (size_t i = 2; i + 3 < tk.size() + 0 && tk.at(i) == "A"; i += 4) {
+      char c = tk.at(i + 1)[0];
+      cfg->set_block_ipv4(c == '6' || c == 'n');
+      cfg->set_block_ipv6(c == '4' || c == 'n');
+      std::string seg;
+      size_t nev = evs.ev.size();
+      t->send_event(torrent::tracker::TrackerParams{}, static_cast<torrent::tracker::TrackerState::event_enum>(event));
+      for (size_t k = nev; k < evs.ev.size(); k++) { if (!seg.empty()) seg += ";"; seg += evs.ev[k]; }
+      for (int b = 0; b < 2; b++) {
+        const std::string& body = tk.at(i + 2 + b);
+        if (body == "~" || t->m_data == nullptr) continue;
+        nev = evs.ev.size();
+        *t->m_data << unhex(body);
+        t->receive_done();
+        std::string e;
+        for (size_t k = nev; k < evs.ev.size(); k++) { if (!e.empty()) e += "+"; e += evs.ev[k]; }
+        if (e.empty()) e = t->m_data != nullptr ? "retry" : "silent";
+        if (!seg.empty()) seg += ";";
+        seg += e;
+      }
+      if (t->m_data != nullptr) t->close();     // the user stops waiting for the remaining reply
+      out += (out.empty() ? "" : " / ") + (seg.empty() ? std::string("-") : seg);
+    }
+  } catch (torrent::internal_error& e) { out += std::string(";ERR:internal:") + e.what();
+  } catch (torrent::bencode_error& e) { out += ";ERR:bencode";
+  } catch (std::exception& e) { out += std::string(";ERR:other:") + e.what(); }
+  cfg->set_block_ipv4(false);
+  cfg->set_block_ipv6(false);
+  out += " | " + show_ts(t.get());
+  try { t->cleanup(); } catch (torrent::internal_error& e) { out += std::string(" cleanup-ERR:") + e.what(); t->state().m_flags |= torrent::tracker::TrackerState::flag_deleted; }
+  return out;
+}
+
 // ------------------------------------------------------------------ UDP
 
 static const uint32_t SYM_CONNECT = 0xC0000001u, SYM_ANNOUNCE = 0xA0000002u;
@@ -389,6 +439,73 @@ static std::string run_udp_once(const std::vector<std::string>& t, unsigned char
   return out;
 }
 
+// UDP tracker whose host name is still being resolved (the net thread object exists but never runs, so the lookup
+// stays in flight):  UP <4|6> <event> (D <src 0|1> <hex>)*   — datagrams to the router of that family from two
+// different loopback senders; the symbolic transaction id 0xC0000001 stands for the real one
+static std::string run_udp_pending(const std::vector<std::string>& t) {
+  int fam = t.at(1) == "6" ? AF_INET6 : AF_INET;
+  int event = std::stoi(t.at(2));
+  auto tt = torrent::ThreadTracker::thread_tracker();
+  auto router = fam == AF_INET ? tt->udp_inet_router() : tt->udp_inet6_router();
+  if (!router->is_open()) return "SETUP-FAIL router not open";
+  int s_ok = udp_socket(fam), s_bad = udp_socket(fam);
+  struct closer { int a, b; ~closer() { close(a); close(b); } } cl{s_ok, s_bad};
+  torrent::TrackerInfo info;
+  info.info_hash = *torrent::HashString::cast_from(g_info_hash);
+  info.url = "udp://tracker.test:" + std::to_string(sock_port(s_ok)) + "/announce";
+  info.key = 7;
+  auto tr = std::make_unique<torrent::tracker::TrackerUdp>(info);
+  Events evs;
+  evs.hook(tr.get());
+  auto& st = fam == AF_INET ? tr->m_inet_state : tr->m_inet6_state;
+  std::string out;
+  try {
+    tr->send_event(torrent::tracker::TrackerParams{}, static_cast<torrent::tracker::TrackerState::event_enum>(event));
+    uint32_t real_c = st.transaction_id;
+    auto ci = find_by_key(router->m_connections, real_c);
+    if (real_c == 0 || ci == nullptr || ci->address != nullptr) out = "SETUP-FAIL lookup not pending";
+    else {
+      bool process_called = false;
+      auto orig = ci->process;
+      ci->process = [orig, &process_called](uint32_t i, torrent::tracker::UdpRouter::buffer_type& b) { process_called = true; return orig(i, b); };
+      sockaddr_in6 raddr{}; socklen_t rl = sizeof(raddr);
+      getsockname(router->file_descriptor(), (sockaddr*)&raddr, &rl);
+      if (fam == AF_INET) ((sockaddr_in*)&raddr)->sin_addr.s_addr = htonl(INADDR_LOOPBACK);
+      else raddr.sin6_addr = in6addr_loopback;
+      std::string evline;
+      for (size_t i = 3; i + 2 < t.size() + 0 && t.at(i) == "D"; i += 3) {
+        std::string d = unhex(t.at(i + 2));
+        if (d.size() >= 8) {
+          uint32_t v = be32((unsigned char*)d.data() + 4);
+          if (v == SYM_CONNECT) put32((unsigned char*)d.data() + 4, real_c);
+          else if (v == real_c) put32((unsigned char*)d.data() + 4, SYM_CONNECT);
+        }
+        if (sendto(t.at(i + 1) == "1" ? s_ok : s_bad, d.data(), d.size(), 0, (sockaddr*)&raddr, rl) != (ssize_t)d.size())
+          return "SETUP-FAIL sendto";
+        process_called = false;
+        size_t nev = evs.ev.size();
+        std::string e;
+        try {
+          router->event_read();
+        } catch (torrent::internal_error& ex) { e = std::string("ERR:internal:") + ex.what();
+        } catch (torrent::bencode_error& ex) { e = "ERR:bencode";
+        } catch (std::exception& ex) { e = std::string("ERR:other:") + ex.what(); }
+        if (e.empty()) {
+          for (size_t k = nev; k < evs.ev.size(); k++) { if (!e.empty()) e += "+"; e += evs.ev[k]; }
+          if (e.empty()) e = process_called ? "processed" : "drop";
+        }
+        for (auto& c : e) if (c == ' ') c = '_';
+        if (!evline.empty()) evline += ';';
+        evline += e;
+      }
+      out = "ev=" + (evline.empty() ? std::string("-") : evline) + " " + show_ts(tr.get());
+    }
+  } catch (torrent::internal_error& e) { out = std::string("ERR:internal:") + e.what();
+  } catch (std::exception& e) { out = std::string("ERR:other:") + e.what(); }
+  try { tr->cleanup(); } catch (torrent::internal_error& e) { out += std::string(" cleanup-ERR:") + e.what(); tr->state().m_flags |= torrent::tracker::TrackerState::flag_deleted; }
+  return out;
+}
+
 // the bytes of the router's 512-byte buffer beyond the datagram must not influence anything: run with two fills
 static std::string run_udp(const std::vector<std::string>& t) {
   std::string a = run_udp_once(t, 0x00), b = run_udp_once(t, 0xA5);
@@ -469,6 +586,12 @@ int main(int argc, char** argv) {
       } else if (t.size() >= 4 && t[0] == "U") {
         need_runtime();
         std::cout << run_udp(t) << "\n";
+      } else if (t.size() >= 3 && t[0] == "UP") {
+        need_runtime();
+        std::cout << run_udp_pending(t) << "\n";
+      } else if (t.size() >= 2 && t[0] == "H3") {
+        need_runtime();
+        std::cout << run_http3(t) << "\n";
       } else if (t.size() >= 3 && t[0] == "H2") {
         need_runtime();
         std::vector<std::string> bodies;
